@@ -9,6 +9,7 @@ import TracingModel.Core.DateTime
 import TracingModel.Spec.CivilJudge
 import TracingModel.Core.LevelsDriver
 import TracingModel.Core.CoreDriver
+import TracingModel.Core.ScopeRaceDriver
 import TracingModel.Core.RegistryDriver
 import TracingModel.Core.SpanDriver
 import TracingModel.Core.DirectiveDriver
@@ -59,6 +60,7 @@ def dispatch (prop mode : String) : Option (List String → String) :=
   | "C01", "spec" => some CoreDriver.spec
   | "C02", "model" => some CoreDriver.model
   | "C02", "spec" => some CoreDriver.spec
+  | "C02", "modelrace" => some ScopeRaceDriver.model
   | "C03", "model" => some SpanDriver.model
   | "C04", "judge" => some RegRaceDriver.judge
   | "C04", "model" => some CoreDriver.model
